@@ -1,4 +1,9 @@
-SPECIFICATION Spec
-CONSTANT MaxBlocks = 3
-INVARIANTS OpenSafe OpenComplete Unfinished EmitCase
+SPECIFICATION GSpec
+CONSTANTS
+  NKeys = 3
+  FailKeys = {3}
+  HLen = 2
+  Stride = 1
+  Offset = 0
+
 CHECK_DEADLOCK FALSE
